@@ -206,4 +206,80 @@ theorem getIn_setIn (segs : List Seg) : ∀ (it v r : V), segs ≠ [] → setIn 
         · cases hset
       · cases hset
 
+theorem lookup_setKey_ne' (k k' : String) (v : V) (l : List (String × V)) (h : k ≠ k') :
+    lookup k' (setKey k v l) = lookup k' l := by
+  induction l with
+  | nil => simp [setKey, lookup, h]
+  | cons x xs ih =>
+    obtain ⟨k0, v0⟩ := x
+    unfold setKey
+    split
+    · rename_i hk
+      simp only [lookup]
+      have : ¬ (k0 = k') := by rw [hk]; exact h
+      simp [this, h]
+    · simp only [lookup]
+      split
+      · rfl
+      · exact ih
+
+/-- Field paths are identified segment by segment, by exact key: writing below `pre.k` leaves
+whatever is read through `pre.k'` (k' ≠ k – a key that is a prefix of k, a case variant, …)
+untouched. `pre` is a common prefix of field segments. -/
+theorem getIn_setIn_sibling (k k' : String) (hk : k ≠ k') (rest qs : List Seg) :
+    ∀ (pre : List String) (it v r : V),
+      setIn it (pre.map Seg.field ++ Seg.field k :: rest) v = .ok r →
+      getIn r (pre.map Seg.field ++ Seg.field k' :: qs) = getIn it (pre.map Seg.field ++ Seg.field k' :: qs) := by
+  intro pre
+  induction pre with
+  | nil =>
+    intro it v r hset
+    simp only [List.map_nil, List.nil_append] at hset ⊢
+    unfold setIn at hset
+    split at hset
+    · rename_i m
+      split at hset
+      · simp only [Except.ok.injEq] at hset
+        subst hset
+        simp [getIn, stepGet, lookup_setKey_ne' k k' _ m hk]
+      · split at hset
+        · simp only [Except.ok.injEq] at hset
+          subst hset
+          simp [getIn, stepGet, lookup_setKey_ne' k k' _ m hk]
+        · cases hset
+    · cases hset
+  | cons k0 pre ih =>
+    intro it v r hset
+    simp only [List.map_cons, List.cons_append] at hset ⊢
+    unfold setIn at hset
+    split at hset
+    · rename_i m
+      split at hset
+      · rename_i hnil
+        cases pre <;> simp at hnil
+      · rename_i nx rest' hrest
+        split at hset
+        · rename_i c' hc
+          simp only [Except.ok.injEq] at hset
+          subst hset
+          have hih := ih _ v c' hc
+          -- the next segment of both paths is a field: nothing grows, a missing key gives an empty object
+          have hnx : ∃ kk, nx = Seg.field kk := by
+            cases pre with
+            | nil => simp only [List.map_nil, List.nil_append, List.cons.injEq] at hrest; exact ⟨k, hrest.1.symm⟩
+            | cons p ps => simp only [List.map_cons, List.cons_append, List.cons.injEq] at hrest; exact ⟨p, hrest.1.symm⟩
+          obtain ⟨kk, hkk⟩ := hnx
+          simp only [getIn, stepGet, lookup_setKey_self']
+          rw [hih]
+          unfold prepField
+          cases hl : lookup k0 m with
+          | none =>
+            simp only [hkk, fresh]
+            cases pre with
+            | nil => simp [getIn, stepGet, lookup]
+            | cons p ps => simp [getIn, stepGet, lookup]
+          | some c => simp [hkk, grow]
+        · cases hset
+    · cases hset
+
 end Xp.C10
